@@ -46,6 +46,42 @@ NEEDS = {
  "c20_m1": ("fields.py format_multipart_header_param fast path checks only '\"' and LF", "name/filename with a bare CR and neither LF nor a quote"),
  "c20_m2": ("fields.py RequestField.render_headers pops from self.headers", "the same RequestField object encoded twice"),
 }
+NEEDS.update({
+ "w2_c01_m1": ("response.py _error_catcher: `if self._connection: close elif self._original_response: close`", "preload_content=False + will_close response (Connection: close) + mid-body timeout/reset: socket and slot leak"),
+ "w2_c01_m2": ("connectionpool.py urlopen status-retry tail: sleep before drain_conn", "preload_content=False + retried status with Retry-After + the sleep step raising (interrupt)"),
+ "w2_c02_m1": ("connectionpool.py _close_pool_connections: `while conn := pool.get(block=False)` stops at the first None placeholder", "a None placeholder above a live connection in the LIFO queue (failed attempt) at close()"),
+ "w2_c02_m2": ("connectionpool.py _get_conn: defensive `except AttributeError -> ClosedPoolError` removed", "close() exactly between the `self.pool is None` test and self.pool.get()"),
+ "w2_c03_m1": ("response.py release_conn guard `self.length_remaining != 0` -> truthiness (None for chunked)", "chunked response released unfinished, then closed/collected, late tail shaped like a response"),
+ "w2_c03_m2": ("response.py _init_length: 205 added to the body-less statuses", "205 with a Content-Length body, keep-alive, released completely unread, then closed; body arrives late"),
+ "w2_c04_m1": ("connection.py getresponse wrapped in try/except BaseException: self.close()", "proxied pool + read fault that is not a ConnectionError (timeout, garbage): misfiled as ProxyError/other"),
+ "w2_c04_m2": ("connectionpool.py status-retry branch: whole retry inside the try whose except MaxRetryError belongs to increment()", "raise_on_status=False + retried status + a later attempt exhausting a budget through an error: inner MaxRetryError swallowed"),
+ "w2_c05_m1": ("connectionpool.py urlopen: `if not headers:` instead of `if headers is None:`", "bare pool with default headers containing content headers + request headers made of content headers only + 303"),
+ "w2_c05_m2": ("poolmanager.py urlopen: urljoin only when parse_url(location).host is None", "scheme-relative Location on an https URL, or path-relative Location"),
+ "w2_c06_m1": ("poolmanager.py urlopen: is_same_host(location) evaluated before urljoin", "scheme-relative Location //other-host/path: judged same host, credentials forwarded"),
+ "w2_c06_m2": ("connectionpool.py 'Try again' recursion passes assert_same_host=False", "bare pool, first attempt dies with a retryable connection error, retried attempt answers 3xx to another host"),
+ "w2_c07_m1": ("connection.py: guard before load_default_certs() lost `and not ca_cert_data`", "trust configured through ca_cert_data only + peer certificate issued by a CA of the system default store"),
+ "w2_c07_m2": ("poolmanager.py _default_key_normalizer: `if value:` while renaming to key_*", "pool created with assert_hostname=False / cert_reqs=CERT_NONE(0), then a default-settings request to the same host is routed to the lax pool"),
+ "w2_c08_m1": ("ssl_match_hostname.py match_hostname: IP SANs collected apart from dnsnames, commonName gate sees DNS entries only", "commonName checking on + SAN list with IP entries only + DNS host matching the commonName"),
+ "w2_c08_m2": ("ssl_match_hostname.py _ipaddress_match: int(ip) == int(host_ip)", "IP SAN and IP host of different families with the same numeric value"),
+ "w2_c09_m1": ("connection.py _connect_tls_proxy: proxy_config.ssl_context or self.ssl_context", "https proxy + https destination, ssl_context= given, no proxy_ssl_context, proxy certificate from the CA pinned for destinations only"),
+ "w2_c09_m2": ("connectionpool.py ConnectionPool.__init__: _tunnel_host rebuilt from self.host with the zone-less IPv6 regex", "tunnelled request to an IPv6 literal with a zone id: CONNECT target without brackets"),
+ "w2_c10_m1": ("connection.py method check: positive token regex without start anchor + .search()", "hostile character (SP, DEL, ':') anywhere in the method except the last position"),
+ "w2_c10_m2": ("util/url.py _encode_target: path and query encoded in one call", "pool-relative target with path and query, a legal %XX escape in one and a stray % in the other"),
+})
+NEEDS.update({
+ "w2_c11_m1": ("connection.py request(): final `0\\r\\n\\r\\n` only written inside `if chunks is not None`", "chunked=True together with body=None"),
+ "w2_c11_m2": ("util/request.py set_file_position: early `return rewind_body(body, pos)` (returns None)", "seekable file body + at least three attempts handled by the same layer: third attempt re-records the position at EOF"),
+ "w2_c14_m1": ("util/url.py _PERCENT_RE: \\d instead of 0-9", "'%' followed by two characters from hex digits + non-ASCII Unicode decimal digits (at least one non-ASCII)"),
+ "w2_c14_m2": ("util/url.py Url.url built from self.authority (netloc drops port 0 and is None without host)", "explicit port 0, or an authority with port/userinfo but empty host: re-parse differs"),
+ "w2_c15_m1": ("connectionpool.py: set_tunnel() moved into _new_conn, _prepare_proxy only connects", "tunnelled https request served by a pooled connection OBJECT that was closed and is reconnected: no CONNECT, TLS straight to the proxy"),
+ "w2_c15_m2": ("util/url.py _encode_target: `if query:` drops an empty query", "URL whose query is present but empty, direct or tunnelled"),
+ "w2_c16_m1": ("_collections.py HTTPHeaderDict.__eq__: early False when len(other) != len(self)", "equal right-hand side that is a sized non-HTTPHeaderDict whose raw length differs from its name count (per-line list with a repeated name, dict with case-variant keys)"),
+ "w2_c16_m2": ("_collections.py __setitem__ reuses the stored list (keeps the first-seen casing)", "name present, then assigned under a different casing, then iterated names observed"),
+ "w2_c17_m1": ("_collections.py RecentlyUsedContainer.__setitem__: evicted value disposed of inside the lock", "container with dispose_func + overflowing insert + a second thread needing the lock during the callback"),
+ "w2_c17_m2": ("poolmanager.py clear(): self.pools replaced by a new container (second lock object)", "thread A inside _new_pool under the old lock, clear() meanwhile, thread B creates and caches its own pool, A overwrites it"),
+ "w2_c20_m1": ("_request_methods.py request_encode_body: caller's HTTPHeaderDict no longer copied, setdefault writes Content-Type into it", "the same HTTPHeaderDict passed as headers= to two multipart requests with different boundaries"),
+ "w2_c20_m2": ("fields.py from_tuples: content_type = content_type or guess_content_type(filename) for every tuple", "3-tuple (filename, data, None/'') which specifies no Content-Type"),
+})
 # missed by the check as it stood when the change arrived -> what was added to the check (then re-run: detected)
 STRENGTHENED = {
  "c01_m1": "C01 op alphabet: PUT with a body whose seek() fails (any second attempt ends in UnrewindableBodyError)",
@@ -66,15 +102,29 @@ STRENGTHENED = {
  "c13_m1": "C13 variant in which the peer keeps the connection open after the corrupt response",
  "c20_m2": "C20 clause: the same field objects encoded a second time give the same bytes",
 }
-CAUGHT_BY_OTHER = {"c09_m2": ["C07", "C09"], "c07_m2": ["C07", "C08"]}
+STRENGTHENED.update({
+ "w2_c01_m1": "C01 environment answers: will_close response whose body stalls / is reset",
+ "w2_c01_m2": "C01 environment answers: 503 + Retry-After and an interruptible sleep step (server hook on_sleep)",
+ "w2_c03_m2": "C03 server behaviours: header block now, whole Content-Length body late (200 and 205)",
+ "w2_c05_m1": "C05 family F4: constructor-level default headers with content headers, request headers made of content headers only",
+ "w2_c06_m2": "C06 single-host pools with a broken first attempt",
+ "w2_c07_m1": "C07 issuer 'system': a CA present only in the (simulated, SSL_CERT_FILE) system default store",
+ "w2_c09_m1": "C09 per-leg trust domains in the stub TLS layer: caller pins a private CA for destinations, proxy presents a certificate from it",
+ "w2_c10_m2": "C10 URL positions with BOTH components present: hostile string in one, legal escapes in the other",
+})
+CAUGHT_BY_OTHER = {"w2_c07_m2": ["C18"], "c09_m2": ["C07", "C09"], "c07_m2": ["C07", "C08"]}
 
 def main():
     out_root = "/verif/seeded"
     os.makedirs(out_root, exist_ok=True)
     rows = []
     for name in sorted(NEEDS):
-        x, m = name.split("_")
-        src = "/tmp/mut_%s/deliver/%s" % (x, m)
+        if name.startswith("w2_"):
+            _, x, m = name.split("_")
+            src = "/tmp/mut2_%s/deliver/%s" % (x, m)
+        else:
+            x, m = name.split("_")
+            src = "/tmp/mut_%s/deliver/%s" % (x, m)
         res = "/verif/scratch/mut/%s" % name
         if not os.path.isdir(src):
             print("missing source", src); continue
